@@ -280,7 +280,8 @@ func (w *World) Docs() []Doc {
 		for _, ap := range r.Ports {
 			switch ap.Kind {
 			case "number":
-				res = append(res, apisv1a.AdminNetworkPolicyPort{PortNumber: &apisv1a.Port{Protocol: corev1.Protocol(protoOr(ap.Proto)), Port: int32(ap.Port)}})
+				// Proto "" = the field is omitted (the API defaults it to TCP)
+				res = append(res, apisv1a.AdminNetworkPolicyPort{PortNumber: &apisv1a.Port{Protocol: corev1.Protocol(ap.Proto), Port: int32(ap.Port)}})
 			case "range":
 				res = append(res, apisv1a.AdminNetworkPolicyPort{PortRange: &apisv1a.PortRange{Protocol: corev1.Protocol(ap.Proto), Start: int32(ap.Port), End: int32(ap.End)}})
 			case "named":
